@@ -8834,3 +8834,67 @@ func rulePrimaryIndexBounded(c *Ctx) {
 	}
 	c.Floor("index expressions over the header's PrimaryIndex in the natives", n, 1)
 }
+
+// ruleScopeDecodersAgree (C15, C17): a witness scope arrives as a byte (binary), as a string (JSON, CLI, RPC
+// parameters) or as a number; which combinations are legal - Global with nothing else, no unknown bits - is written
+// once, in transaction.ScopesFromByte. Every other function of the package that produces a WitnessScope from outside
+// data (result type (WitnessScope, error)) hands its result to that validator on every successful return: a decoder
+// with checks of its own drifts (finding 98: the string form refused "Global,X" and accepted "X,Global", a value the
+// binary codec cannot carry and checkScope reads as "not Global").
+func ruleScopeDecodersAgree(c *Ctx) {
+	pk := c.P.Pkg("pkg/core/transaction")
+	if pk == nil {
+		c.Lost("scope-decoders-agree.pkg", "package transaction not loaded")
+		return
+	}
+	info := pk.TypesInfo
+	n := 0
+	var validator *types.Func
+	if o, ok := pk.Types.Scope().Lookup("ScopesFromByte").(*types.Func); ok {
+		validator = o
+	}
+	if validator == nil {
+		c.Lost("scope-decoders-agree.validator", "transaction.ScopesFromByte not found")
+		return
+	}
+	for _, fd := range c.P.AllFuncDecls() {
+		if fd.Pkg != pk || fd.Decl.Body == nil || fd.Obj == validator {
+			continue
+		}
+		sig := fd.Obj.Type().(*types.Signature)
+		if sig.Results().Len() != 2 || !namedTypeIs(sig.Results().At(0).Type(), "pkg/core/transaction", "WitnessScope") {
+			continue
+		}
+		if types.TypeString(sig.Results().At(1).Type(), nil) != "error" {
+			continue
+		}
+		n++
+		key := shortSym(FuncKey(fd.Obj))
+		bad := token.NoPos
+		inspectNoLit(fd.Decl.Body, func(x ast.Node) bool {
+			rs, ok := x.(*ast.ReturnStmt)
+			if !ok {
+				return true
+			}
+			switch len(rs.Results) {
+			case 1:
+				if call, ok := ast.Unparen(rs.Results[0]).(*ast.CallExpr); ok && calleeFunc(info, call) == validator {
+					return true
+				}
+				bad = rs.Pos()
+			case 2:
+				// an error return is fine; a success return (nil error) bypasses the validator
+				if isNilIdent(info, rs.Results[1]) {
+					bad = rs.Pos()
+				}
+			}
+			return true
+		})
+		if bad == token.NoPos {
+			c.OK(key, c.P.Pos(fd.Decl.Pos()), "every successful return goes through ScopesFromByte")
+		} else {
+			c.Fail(key, c.P.Pos(bad), fmt.Sprintf("%s returns a WitnessScope built from outside data without handing it to ScopesFromByte, the one place that says which combinations are legal: its own checks can accept what the binary form refuses (\"CalledByEntry,Global\" = 0x81) - a signer that cannot be encoded, and that checkScope, which compares the whole byte with Global, evaluates as CalledByEntry only", FuncKey(fd.Obj)))
+		}
+	}
+	c.Floor("decoders of WitnessScope besides ScopesFromByte", n, 1)
+}
